@@ -99,7 +99,7 @@ theorem queued_implies_flagged (p : Params) (cap : Nat) (ops : List Op1) (hw : W
       (f.route = .pool → p.stationary = true →
           p.sthr ≤ f.rate ∨ (p.lthr ≠ 0 ∧ f.rateLong ≠ 0 ∧ p.lthr ≤ f.rateLong)) := by
   intro f hf
-  obtain ⟨_, _, h3, h4, h5, h6⟩ := (run1_invC p cap ops hw).evsOK f hf
+  obtain ⟨_, _, h3, h4, h5, h6⟩ := (run1_invC (S := True) p cap ops hw).evsOK f hf
   unfold RateOK at h6
   refine ⟨h3, h4, ?_, ?_, ?_, ?_, ?_⟩
   · intro hs; simpa [hs] using h6
@@ -128,7 +128,7 @@ theorem queue_entries_flagged (p : Params) (cap : Nat) (ops : List Op1) (hw : We
     rw [← b2n_eq_one]; have := b2n_le ((run1 p cap ops).sh.inQueue e.plan.site); omega
   have hc := hA.counters e.plan.site
   have hd := (run1_invD p cap ops hw).flagsEq e.plan.site
-  obtain ⟨h1, h2, _⟩ := (run1_invC p cap ops hw).queueOK e he
+  obtain ⟨h1, h2, _⟩ := (run1_invC (S := True) p cap ops hw).queueOK trivial e he
   rw [hin] at hc
   simp only [b2n_true] at hc
   exact ⟨hin, by omega, h1, h2⟩
@@ -144,7 +144,7 @@ theorem not_before_reporting_delay (p : Params) (cap : Nat) (ops : List Op1) (hw
     (∀ v ∈ (run1 p cap ops).sh.visits, v.recDate + p.rd ≤ v.day) := by
   refine ⟨?_, (run1_invD p cap ops hw).visitsOK⟩
   intro f hf
-  obtain ⟨h1, _, _, _, h5, _⟩ := (run1_invC p cap ops hw).evsOK f hf
+  obtain ⟨h1, _, _, _, h5, _⟩ := (run1_invC (S := True) p cap ops hw).evsOK f hf
   refine ⟨h1, ?_, ?_⟩
   · intro hr; unfold RouteOK at h5; rw [hr] at h5; exact h5.2.1
   · intro hr; unfold RouteOK at h5; rw [hr] at h5; exact h5.1
@@ -276,6 +276,75 @@ theorem proportion (p : Params) (d first : Int) (st : St) (hs : Sorted st.m.pool
                 simp [this]) (by simp)
     exact ⟨this.1, cnt_zero_not_mem this.2⟩
 
+
+/-- the state of the screening method on day `d` after the released records have been processed and
+before the flagging decision (`dailyUpdate p d st = updateCandidates p d (midState p d st)` by `rfl`) -/
+def midState (p : Params) (d : Int) (st : St) : St :=
+  (st.m.records.filter (fun r => r.date = d - p.rd)).foldl (processRec p d (d - p.rd))
+    { st with m := { st.m with records := st.m.records.filter (fun r => r.date ≠ d - p.rd), today := d, nflags := 0 } }
+
+theorem dailyUpdate_eq_mid (p : Params) (d : Int) (st : St) :
+    dailyUpdate p d st = updateCandidates p d (midState p d st) := rfl
+
+private theorem processRec_nflags (p : Params) (d dc : Int) (st : St) (r : Rec) :
+    (processRec p d dc st r).m.nflags = st.m.nflags := by
+  unfold processRec updMobile updStationary
+  repeat' (first | split | simp only [])
+  all_goals rfl
+
+private theorem foldRec_nflags (p : Params) (d dc : Int) (rs : List Rec) (st : St) :
+    (rs.foldl (processRec p d dc) st).m.nflags = st.m.nflags := by
+  induction rs generalizing st with
+  | nil => rfl
+  | cons r t ih => simp only [List.foldl_cons]; rw [ih, processRec_nflags]
+
+/-- `proportion` for every history: on every day `d` after any history, the sites flagged through
+the pool that day are among the first `k = keepCount …` candidates of the pool as it stands after
+the day's records (sorted by decreasing rate: every kept candidate is at least as large as every
+rejected one), at most `min k |pool|` of them, and only if the delay since the first candidate has
+passed; otherwise no flag event is added that day by the decision -/
+theorem proportion_history (p : Params) (cap : Nat) (ops : List Op1) (d : Int) :
+    let mid := midState p d (run1 p cap ops)
+    let k := keepCount p mid.m.pool.length mid.m.count
+    let st' := dailyUpdate p d (run1 p cap ops)
+    (∀ x ∈ mid.m.pool.take k, ∀ y ∈ mid.m.pool.drop k, y.rate ≤ x.rate) ∧
+    (∀ f ∈ st'.m.evs, f ∈ mid.m.evs ∨ ∃ first, first + p.delay ≤ d ∧
+        ∃ pl ∈ mid.m.pool.take k, f = mkEv pl .pool d first (mid.sh.latestTag pl.site)) ∧
+    st'.m.nflags ≤ min k mid.m.pool.length := by
+  intro mid k st'
+  have hA0 := run1_invA p cap ops
+  have hs : Sorted mid.m.pool := foldRec_sorted _ _ _ _ _ (run1_sorted p cap ops)
+  have hA : InvA mid := foldRec_invA _ _ _ _ _ ⟨hA0.poolCnt, hA0.queueCnt, hA0.excl, hA0.counters, hA0.noErr⟩
+  have hn : mid.m.nflags = 0 := by
+    show (midState p d (run1 p cap ops)).m.nflags = 0
+    unfold midState
+    rw [foldRec_nflags]
+  have key : ∀ first, first + p.delay ≤ d →
+      (∀ f ∈ (decideNow p d first mid).m.evs, f ∈ mid.m.evs ∨ ∃ first, first + p.delay ≤ d ∧
+        ∃ pl ∈ mid.m.pool.take k, f = mkEv pl .pool d first (mid.sh.latestTag pl.site)) ∧
+      (decideNow p d first mid).m.nflags ≤ min k mid.m.pool.length := by
+    intro first hdue
+    obtain ⟨_, _, h3, h4, _, _⟩ := proportion p d first mid hs hA
+    refine ⟨?_, by rw [hn] at h4; simpa using h4⟩
+    intro f hf
+    rcases h3 f hf with h | h
+    · exact Or.inl h
+    · exact Or.inr ⟨first, hdue, h⟩
+  refine ⟨(proportion p d d mid hs hA).2.1, ?_⟩
+  show (∀ f ∈ (updateCandidates p d mid).m.evs, _) ∧ (updateCandidates p d mid).m.nflags ≤ _
+  unfold updateCandidates
+  split
+  · split
+    · exact ⟨fun f hf => Or.inl hf, by rw [hn]; exact Nat.zero_le _⟩
+    · split
+      · rename_i hd
+        exact key d (by omega)
+      · exact ⟨fun f hf => Or.inl hf, by show mid.m.nflags ≤ _; rw [hn]; exact Nat.zero_le _⟩
+  · split
+    · rename_i fc _ hd
+      exact key fc (by omega)
+    · exact ⟨fun f hf => Or.inl hf, by rw [hn]; exact Nat.zero_le _⟩
+
 /-- never more than the configured proportion of all pooled detections: with the proportion applied
 first, the number kept is at most `⌈p · (c + |pool|)⌉` -/
 theorem proportion_upper_bound (p : Params) (n c : Nat) (hp : 0 ≤ p.prop) (ht : p.thrFirst = false) :
@@ -321,7 +390,7 @@ latest tagging survey (the pool route is the known finding F17) -/
 theorem stale_instant_partial (p : Params) (cap : Nat) (ops : List Op1) (hw : WellDated p cap {} ops) :
     ∀ f ∈ (run1 p cap ops).m.evs, f.route = .instant → f.tagAtFlag ≤ f.recDate := by
   intro f hf hr
-  obtain ⟨_, _, _, _, h5, _⟩ := (run1_invC p cap ops hw).evsOK f hf
+  obtain ⟨_, _, _, _, h5, _⟩ := (run1_invC (S := True) p cap ops hw).evsOK f hf
   unfold RouteOK at h5; rw [hr] at h5; exact h5.2.2.2
 
 /-! #### the follow-up method only works from its queue -/
@@ -376,7 +445,7 @@ theorem followup_only_from_queue (p : Params) (cap : Nat) (ops : List Op1) (d : 
 
 /-- a system with exactly one screening method is the single-method machine -/
 def SysInv (p : Params) (sy : Sys) : Prop :=
-  ∃ st : St, sy.ms = [st.m] ∧ sy.sh = st.sh ∧ InvA st ∧ InvC p st ∧ InvD p st
+  ∃ st : St, sy.ms = [st.m] ∧ sy.sh = st.sh ∧ InvA st ∧ InvC True p st ∧ InvD p st
 
 theorem stepSys_sysInv (p : Params) (cap : Nat) (sy : Sys) (op : Op) (h : SysInv p sy)
     (hw : wellDatedSys [p] cap sy (op :: []) = true) : SysInv p (stepSys [p] cap sy op) := by
@@ -434,7 +503,7 @@ theorem C09_partial (p : Params) (cap : Nat) (ops : List Op)
     (∀ (i : Nat) (m : MState), (runSys [p] cap ops).ms[i]? = some m →
         ∀ f ∈ m.evs, f.route = .instant → f.tagAtFlag ≤ f.recDate) := by
   have h0 : SysInv p (initSys [p]) :=
-    ⟨{}, rfl, rfl, invA_init, invC_init p, ⟨by intro s; rfl, by simp⟩⟩
+    ⟨{}, rfl, rfl, invA_init, invC_init True p, ⟨by intro s; rfl, by simp⟩⟩
   obtain ⟨st, hm, hsh, hA, hC, hD⟩ := foldl_sysInv p cap ops _ h0 hw
   unfold runSys
   rw [hm, hsh]
@@ -456,6 +525,149 @@ theorem C09_partial (p : Params) (cap : Nat) (ops : List Op)
       obtain ⟨_, _, _, _, h5, _⟩ := hC.evsOK f hf
       unfold RouteOK at h5; rw [hr] at h5; exact h5.2.2.2
     | succ k => simp at hmi
+
+
+/-! #### any number of screening methods: what F13 does not break -/
+
+/-- per screening method, the provenance / date / routing invariant without the clause about the
+shared queue -/
+def SysInvC (ps : List Params) (sy : Sys) : Prop :=
+  ∀ (i : Nat) (p : Params) (m : MState), ps[i]? = some p → sy.ms[i]? = some m →
+    InvC False p { m := m, sh := sy.sh }
+
+private theorem invC_frame {p : Params} {m : MState} {sh sh' : Shared}
+    (h : InvC False p { m := m, sh := sh }) : InvC False p { m := m, sh := sh' } :=
+  ⟨h.poolOK, fun hS => hS.elim, h.poolThr, h.evsOK, h.relOK, h.firstOK⟩
+
+theorem stepSys_sysInvC (ps : List Params) (cap : Nat) (sy : Sys) (op : Op) (h : SysInvC ps sy)
+    (hw : wellDatedSys ps cap sy (op :: []) = true) : SysInvC ps (stepSys ps cap sy op) := by
+  unfold wellDatedSys at hw
+  simp only [wellDatedSys, Bool.and_true] at hw
+  cases op with
+  | screen i s r d =>
+    unfold stepSys
+    cases hmi : sy.ms[i]? with
+    | none => simpa [hmi] using h
+    | some m =>
+      simp only [hmi]
+      intro j q mj hq hmj
+      simp only [List.getElem?_set] at hmj
+      by_cases hij : i = j
+      · subst hij
+        have hlt : i < sy.ms.length := by
+          rcases Nat.lt_or_ge i sy.ms.length with hl | hl
+          · exact hl
+          · rw [List.getElem?_eq_none hl] at hmi; cases hmi
+        simp only [hlt, if_true, Option.some.injEq] at hmj
+        subst hmj
+        have := h i q m hq hmi
+        exact ⟨this.poolOK, fun hS => hS.elim, this.poolThr, this.evsOK, this.relOK, this.firstOK⟩
+      · simp only [hij, if_false] at hmj
+        exact h j q mj hq hmj
+  | update i d =>
+    unfold stepSys
+    cases hpi : ps[i]? with
+    | none => simpa [hpi] using h
+    | some p =>
+      cases hmi : sy.ms[i]? with
+      | none => simpa [hpi, hmi] using h
+      | some m =>
+        simp only [hpi, hmi]
+        have hd : m.today ≤ d := by simpa [hmi] using hw
+        have hnew := dailyUpdate_invC (S := False) p d { m := m, sh := sy.sh } (h i p m hpi hmi) hd
+        intro j q mj hq hmj
+        simp only [List.getElem?_set] at hmj
+        by_cases hij : i = j
+        · subst hij
+          have hlt : i < sy.ms.length := by
+            rcases Nat.lt_or_ge i sy.ms.length with hl | hl
+            · exact hl
+            · rw [List.getElem?_eq_none hl] at hmi; cases hmi
+          simp only [hlt, if_true, Option.some.injEq] at hmj
+          subst hmj
+          rw [hpi] at hq
+          simp only [Option.some.injEq] at hq
+          subst hq
+          exact hnew
+        · simp only [hij, if_false] at hmj
+          exact invC_frame (h j q mj hq hmj)
+  | fuDay d outs =>
+    intro j q mj hq hmj
+    exact invC_frame (h j q mj hq hmj)
+  | tag s d =>
+    intro j q mj hq hmj
+    exact invC_frame (h j q mj hq hmj)
+
+theorem foldl_sysInvC (ps : List Params) (cap : Nat) (ops : List Op) (sy : Sys) (h : SysInvC ps sy)
+    (hw : wellDatedSys ps cap sy ops = true) : SysInvC ps (ops.foldl (stepSys ps cap) sy) := by
+  induction ops generalizing sy with
+  | nil => exact h
+  | cons op t ih =>
+    unfold wellDatedSys at hw
+    rw [Bool.and_eq_true] at hw
+    refine ih _ (stepSys_sysInvC ps cap sy op h ?_) hw.2
+    unfold wellDatedSys
+    simp only [wellDatedSys, Bool.and_true]
+    exact hw.1
+
+/-- C09 for ANY number of screening methods bound to one follow-up method — the clauses the known
+finding F13 does not break: every flag event of every method stems from released detections of that
+site by that method, its rate is the redundancy-filtered rate of those detections and reached the
+(instant) threshold, never before the reporting delay (+ delay on the pool route), and a flag on the
+instant route never rests on a screening older than the site's latest tagging survey -/
+theorem C09_flags_any_methods (ps : List Params) (cap : Nat) (ops : List Op)
+    (hw : wellDatedSys ps cap (initSys ps) ops = true) :
+    ∀ (i : Nat) (p : Params) (m : MState), ps[i]? = some p → (runSys ps cap ops).ms[i]? = some m →
+      ∀ f ∈ m.evs, GoodFlag p m.released m.today f ∧ (f.route = .instant → f.tagAtFlag ≤ f.recDate) := by
+  have h0 : SysInvC ps (initSys ps) := by
+    intro i p m hp hm
+    simp only [initSys, List.getElem?_map] at hm
+    cases hpi : ps[i]? with
+    | none => simp [hpi] at hm
+    | some q =>
+      simp only [hpi, Option.map_some, Option.some.injEq] at hm
+      subst hm
+      exact invC_init False p
+  have h := foldl_sysInvC ps cap ops _ h0 hw
+  intro i p m hp hm f hf
+  have hg := (h i p m hp hm).evsOK f hf
+  refine ⟨hg, ?_⟩
+  intro hr
+  obtain ⟨_, _, _, _, h5, _⟩ := hg
+  unfold RouteOK at h5; rw [hr] at h5; exact h5.2.2.2
+
+/-- ... and each flag still leads to at most one follow-up survey: for any number of screening
+methods and any history, completed + withdrawn + outstanding requests of a site never exceed the
+number of times the site was flagged (the duplicate requests of F13 are each backed by a flag) -/
+theorem C09_done_le_flags_any_methods (ps : List Params) (cap : Nat) (ops : List Op) (s : Nat) :
+    (runSys ps cap ops).sh.done s + (runSys ps cap ops).sh.dropped s
+      + outstanding (runSys ps cap ops).sh.queue s ≤ (runSys ps cap ops).sh.flags s ∧
+    (runSys ps cap ops).sh.done s ≤ (runSys ps cap ops).sh.flags s := by
+  have key : ∀ (ops : List Op) (sy : Sys), K sy.sh → K (ops.foldl (stepSys ps cap) sy).sh := by
+    intro ops
+    induction ops with
+    | nil => intro sy h; exact h
+    | cons op t ih =>
+      intro sy h
+      apply ih
+      cases op with
+      | screen i s r d =>
+        cases hm : sy.ms[i]? with
+        | none => simpa [stepSys, hm] using h
+        | some m => simpa [stepSys, hm] using h
+      | update i d =>
+        cases hp : ps[i]? with
+        | none => simpa [stepSys, hp] using h
+        | some p =>
+          cases hm : sy.ms[i]? with
+          | none => simpa [stepSys, hp, hm] using h
+          | some m => simpa [stepSys, hp, hm] using dailyUpdate_K p d { m := m, sh := sy.sh } h
+      | fuDay d outs => exact followUpDay_K cap d outs sy.sh h
+      | tag s d => exact h
+  have h0 : K (initSys ps).sh := by intro s; simp [initSys, outstanding]
+  have := key ops (initSys ps) h0 s
+  unfold runSys
+  exact ⟨this, by omega⟩
 
 /-! ### counterexamples (known findings) -/
 
